@@ -176,6 +176,7 @@ fn bvh_cases(cw: &mut CaseWriter, seed: u64, n_sets: usize) {
     use std::process::{Command, Stdio};
     let exe = std::env::current_exe().expect("current exe");
     let mut k = 0usize;
+    let mut hangs = 0usize; // confirmed hangs so far: after three, a watchdog expiry is reported without a second, longer run
     while k < n_sets {
         let mut child = Command::new(&exe)
             .args(["c13", "--seed", &seed.to_string(), "--bvh-worker", &k.to_string(), "--bvh-to", &n_sets.to_string()])
@@ -207,6 +208,13 @@ fn bvh_cases(cw: &mut CaseWriter, seed: u64, n_sets: usize) {
                     // the build of set k does not terminate — or the machine is busy: the set is a hang only if it also
                     // exceeds a minute in a worker of its own
                     let _ = child.kill();
+                    hangs += 1;
+                    if hangs > 3 {
+                        let set = gen_bvh_set(seed, k);
+                        cw.write(bvh_case_json(&set, json!({"outcome": "timeout"})));
+                        k += 1;
+                        break;
+                    }
                     let alone = Command::new(&exe)
                         .args(["c13", "--seed", &seed.to_string(), "--bvh-worker", &k.to_string(), "--bvh-to", &(k + 1).to_string()])
                         .stdout(Stdio::piped())
@@ -228,6 +236,7 @@ fn bvh_cases(cw: &mut CaseWriter, seed: u64, n_sets: usize) {
                         if let Ok(line) = r2.recv_timeout(Duration::from_secs(60)) {
                             cw.write(serde_json::from_str(&line).unwrap());
                             answered = true;
+                            hangs -= 1;
                         }
                         let _ = c2.kill();
                         let _ = c2.wait();
